@@ -4,7 +4,7 @@ from compile_common import GEN_RULE, TRUSTED, stream
 
 CONFIG = {
     "lean_props": "J5V/Props/C14.lean",
-    "extract": ["maprange"],
+    "extract": ["maprange", "builders"],
     "streams": [
         stream("det", {"quick": 96, "thorough": 320, "search": 96}, {"quick": 16, "thorough": 16, "search": 16},
                GEN_RULE + " Op `det`: bundle of 1-4 packages with 1-4 files each and a variant (permutation of the package listing, permutation "
@@ -15,7 +15,9 @@ CONFIG = {
                "range) and 2 (thorough 3) fresh processes (different map hash seed); the identity listing is compiled once more in the same "
                "process. Bundles may hold nested package directories (foo.v1 and foo.v1.types.v2, importing each other's types) and files with "
                "two un-aliased imports that imply the same short name (the later statement owns it, the named type exists in both packages): "
-               "those are compiled 6 more times in process and in 20 fresh processes. Printer sub-oracle: per package one descriptor without "
+               "those are compiled 6 more times in process and in 20 fresh processes. In 2/3 of the bundles every inline enum field with >= 2 options gets (chance 1/2) a rules.in / rules.notIn "
+               "list naming >= 2 distinct options and repeating one of them, bare and / or with the enum prefix (both spellings are accepted; counter det.gen.enum-in-repeat): a rule list "
+               "rebuilt from a Go map changes order between compiles. Printer sub-oracle: per package one descriptor without "
                "source info whose messages carry every message-level option known to the process (among them options of different files with "
                "the same declaration index and the same short name) is printed 7 times in process and once per fresh process; all texts are "
                "equal. Non-trivial = bundle in which at least one package compiled; distinct by skeleton.", gomemlimit="3GiB"),
